@@ -35,6 +35,11 @@ def main():
         m = json.load(open(meta))
         if args.k and args.k not in m['id'] and args.k != m['breaks_property']:
             continue
+        if 'unreported' in m:
+            # recorded as out of reach (see meta.json / DESIGN.md §8)
+            rows.append((m['id'], m['breaks_property'], 'not reported '
+                         '(by decision)', ''))
+            continue
         d = tempfile.mkdtemp(prefix='vt_seedreg_', dir=base)
         try:
             dst = os.path.join(d, 'repo')
@@ -71,7 +76,8 @@ def main():
                     'verdict | first mechanism |\n|---|---|---|---|\n' % args.tier)
             for r in rows:
                 f.write('| %s | %s | %s | %s |\n' % r)
-    return 1 if [r for r in rows if r[2] != 'caught'] else 0
+    return 1 if [r for r in rows if r[2] not in ('caught', 'not reported '
+                                                  '(by decision)')] else 0
 
 
 if __name__ == '__main__':
